@@ -233,6 +233,32 @@ class Session:
                     self.instantiated[key] = self.instantiated.get(key, 0) + 1
                     self.add(r, rt)
                     self.col.feature('op_instantiate_type_constructor')
+                elif kind == 'alias':
+                    # gen_new builds `con.new(etype.type_args)` from the argument *list* of an existing type, and
+                    # TypeOverwriting later edits `t.type_args[i] = ...` of one node's type in place: the type the list
+                    # came from must keep its meaning
+                    insts = [(ir, t) for ir, t in self.pool if t[0] == 'i' and t[2] and not rm.has_kind(t, ('v',))
+                             and t[1] in dict(self.cons)]
+                    if insts:
+                        ir, t = insts[op[1] % len(insts)]
+                        con = dict(self.cons)[t[1]]
+                        r = con.new(ir.type_args)
+                        j = op[2] % len(r.type_args)
+                        other, _ = self.pool[op[3] % len(self.pool)]
+                        r.type_args[j] = other
+                        self.col.feature('op_new_from_argument_list_then_edited')
+                elif kind == 'badnew' and self.cons:
+                    # a rejected instantiation (wrong number of arguments) must leave the definition untouched
+                    key, con = self.cons[op[1] % len(self.cons)]
+                    n = len(u.table.cls[key]['params'])
+                    args = [self.pool[(op[2] + j) % len(self.pool)][0] for j in range(n + 1 if op[3] else max(0, n - 1))]
+                    try:
+                        con.new(args)
+                        self.col.feature('op_bad_arity_accepted')
+                    except RecursionError:
+                        raise
+                    except Exception:
+                        self.col.feature('op_bad_arity_rejected')
                 elif kind == 'supers':
                     ir, t = self.pool[op[1] % len(self.pool)]
                     ir.get_supertypes()
@@ -328,6 +354,8 @@ OPS = st.one_of(
     st.tuples(st.just('tvfree'), st.integers(0, 40)),
     st.tuples(st.just('inst'), st.integers(0, 7), st.integers(0, 10 ** 6)),
     st.tuples(st.just('supers'), st.integers(0, 40)),
+    st.tuples(st.just('alias'), st.integers(0, 40), st.integers(0, 3), st.integers(0, 40)),
+    st.tuples(st.just('badnew'), st.integers(0, 7), st.integers(0, 40), st.booleans()),
     st.tuples(st.just('typevar'), st.integers(0, 40), st.booleans()),
 )
 
